@@ -55,7 +55,7 @@ def user_callable(name, sort=None, raises=True, exc='UserError', log=None):
         if raises and ip.may_raise(name + '-raises'):
             ip.log.append(('user-raise', name))
             raise PyRaise(ExcVal(exc, (name,)))
-        if sort == 'cx':
+        if isinstance(sort, str) and sort == 'cx':
             return Cx(uf(name + '_re', *args, *extra, sort=z3.RealSort()),
                       uf(name + '_im', *args, *extra, sort=z3.RealSort()))
         return uf(name, *args, *extra, sort=sort)
